@@ -357,7 +357,8 @@ class KeepDense(Dense_):
         self._map = mapping
         self._sel = selects
         self._len = len
-        if headers: self.headers = headers
+        #an empty map says that no named column is left (without it the map of the wrapped row would show through)
+        if headers is not None: self.headers = headers
 
     def __getitem__(self, key: Union[int,str]):
         return self._row[self._map.get(key,10000000)]
